@@ -103,6 +103,17 @@ def path_strings(maxlen: int, canary: Path, real: dict) -> list[str]:
     out += ["..\\..\\outside", "x\\..\\..\\outside\\shards_list.json"]
     out += [a.replace("/outside/", "/outside/./") for a in absolute[:2]]
     out += [a.replace("/outside/", "/root/../outside/") for a in absolute[:2]]
+    # spellings that only escape after some helpful normalisation: home /
+    # environment expansion (HOME points at the sandbox), stripped blanks
+    # or control characters, percent-encoding, file: URLs
+    for tail in ("x.fb", "shards_list.json"):
+        out += [f"~/outside/{tail}", f"$HOME/outside/{tail}",
+                "${HOME}" + f"/outside/{tail}",
+                f" ../outside/{tail}", f"../outside/{tail} ",
+                f"..\t/outside/{tail}", f"\t../outside/{tail}",
+                f"%2e%2e/outside/{tail}", f"..%2foutside%2f{tail}",
+                f"file://{canary}/{tail}", f"file:{canary}/{tail}",
+                f".. /outside/{tail}"]
     # plain relative spellings of the EXISTING files outside (a native
     # reader that opens a missing file leaves no trace; an existing one is
     # seen by inotify)
@@ -243,7 +254,15 @@ def exercise(root: Path, with_native: bool) -> list[str]:
 
 def _names_outside_file(root: Path, s: str) -> bool:
     import unicodedata
-    for v in {s, s.replace("\\", "/"), unicodedata.normalize("NFKC", s)}:
+    import urllib.parse
+    cands = {s, s.replace("\\", "/"), unicodedata.normalize("NFKC", s),
+             os.path.expandvars(os.path.expanduser(s)), s.strip(),
+             s.replace("\t", "").replace(" ", ""),
+             urllib.parse.unquote(s)}
+    if s.startswith("file:"):
+        cands.add(s[5:].lstrip("/").join(["/", ""]) if False else
+                  "/" + s[5:].lstrip("/"))
+    for v in cands:
         try:
             p = os.path.normpath(os.path.join(str(root), v))
         except (TypeError, ValueError):
@@ -266,6 +285,7 @@ def case_chunk(args) -> dict:
         strings = path_strings(maxlen, outside, real)
         _AUD.update(sandbox=os.path.realpath(sandbox),
                     root=os.path.realpath(root))
+        os.environ["HOME"] = str(sandbox)  # for '~' and $HOME spellings
         for i in idxs:
             if i >= len(strings):
                 continue
